@@ -613,25 +613,56 @@ func propC14(c *Check) {
 				if w.To != en.Set("Downgrade") {
 					continue
 				}
+				// the jailed record as it is committed: the value the fields hold at the store of the record that follows
+				// the status write (wherever in between they were assigned)
 				want := map[string]string{".Power": "0", ".JailedUntil": "Time.Add(Context.BlockTime(), $4.DowntimeJailDuration)"}
-				for _, b := range hv.Blocks {
-					for _, in := range b.Instrs {
-						if st, ok := in.(*ssa.Store); ok && st.Block() == w.Store.Block() {
-							if ra, path := rootAlloc(st.Addr); ra == a {
-								if wv, ok := want[path]; ok {
-									if v := r.E(st.Val); v == wv {
-										c.Held("R2", "jail"+path+" @ "+FuncKey(hv), p.InstrPos(st), v)
+				var commits []ssa.Instruction
+				for _, ci := range callsIn(hv) {
+					if strings.HasPrefix(p.CallStr(ci), "Validators.Set(") && r.instrReaches(w.Store, ci) {
+						commits = append(commits, ci)
+					}
+				}
+				for _, path := range []string{".Power", ".JailedUntil"} {
+					if len(commits) == 0 {
+						c.Violated("R2", "jail"+path+" @ "+FuncKey(hv), p.InstrPos(w.Store), "not set together with the Downgrade status reason=not-established")
+						continue
+					}
+					var good, bad []ssa.Instruction
+					for _, b := range hv.Blocks {
+						for _, in := range b.Instrs {
+							if st, ok := in.(*ssa.Store); ok {
+								if ra, sp := rootAlloc(st.Addr); ra == a && sp == path {
+									if r.E(st.Val) == want[path] {
+										good = append(good, st)
 									} else {
-										c.Violated("R2", "jail"+path+" @ "+FuncKey(hv), p.InstrPos(st), "is "+v+", expected "+wv)
+										bad = append(bad, st)
 									}
-									delete(want, path)
 								}
 							}
 						}
 					}
-				}
-				for path := range want {
-					c.Violated("R2", "jail"+path+" @ "+FuncKey(hv), p.InstrPos(w.Store), "not set together with the Downgrade status reason=not-established")
+					isGood, isCommit := instrSet(good), instrSet(commits)
+					// (a) some assignment of the expected value lies on every way through the status write to the store
+					_, before := (&PathSearch{Fn: hv, AvoidInstr: isGood, IsTarget: instrSet([]ssa.Instruction{w.Store})}).Find()
+					_, after := (&PathSearch{Fn: hv, From: w.Store, AvoidInstr: isGood, IsTarget: isCommit}).Find()
+					problem := ""
+					if len(good) == 0 || (before != nil && after != nil) {
+						problem = "not assigned " + want[path] + " on a path through the Downgrade status write to the store of the record"
+					}
+					// (b) … and no other assignment of the field can come after it
+					for _, bs := range bad {
+						if !(r.instrReaches(w.Store, bs) || r.instrReaches(bs, w.Store)) {
+							continue
+						}
+						if t, _ := (&PathSearch{Fn: hv, From: bs, AvoidInstr: isGood, IsTarget: isCommit}).Find(); t != nil {
+							problem = "assigned " + r.E(bs.(*ssa.Store).Val) + " before the jailed record is stored"
+						}
+					}
+					if problem == "" {
+						c.Held("R2", "jail"+path+" @ "+FuncKey(hv), p.InstrPos(good[0]), want[path])
+					} else {
+						c.Violated("R2", "jail"+path+" @ "+FuncKey(hv), p.InstrPos(w.Store), problem+", expected "+want[path])
+					}
 				}
 				// slashed with the downtime fraction before being jailed
 				sl := p.FindCallsDeep(hv, `^Slashed\.Set\(`)
